@@ -1,5 +1,5 @@
 # replay of a bounded stand-in violation (C13): re-run native/c13_tdm.py
 import sys
-print("calls ('space1', 'space1', 'space1'): the program no longer runs: IndexError: list index out of range")
+print('N=[8, 2] bands measured in order [1, 0] timebins=3 shots=2: samples[0,1,2] identifies pulse 11, expected pulse 12 (band 1)')
 print('REPLAY-VIOLATION')
 sys.exit(1)
